@@ -6,7 +6,7 @@
    computation is on booleans / dumps / real numbers, never on a term of type
    F32 / F64. *)
 From RM Require Import Model.ControlPoints Model.Curve Proofs.EncFloat Proofs.LengthFacts Proofs.LengthBound Proofs.InterpExact Proofs.PositionExact
-  Proofs.AdjustExact Proofs.AdjustIEEEBase Proofs.AdjustIEEE Proofs.AdjustIEEESum Proofs.InterpIEEE Proofs.InterpIEEEFrac.
+  Proofs.AdjustExact Proofs.AdjustIEEEBase Proofs.AdjustIEEE Proofs.AdjustIEEESum Proofs.AdjustIEEELen Proofs.InterpIEEE Proofs.InterpIEEEFrac.
 From Flocq Require Import Core BinarySingleNaN.
 From Coq Require Import Reals Lra Lia ZArith List.
 Import ListNotations.
@@ -278,4 +278,36 @@ Proof.
   assert (P : pw (-127) <= / 100000000).
   { apply Rle_trans with (pw (-30)); [apply bpow_le; lia|cbn; lra]. }
   unfold E16, u32 in B. rewrite (Rabs_pos_eq 3), (Rabs_pos_eq 4) in B by lra. lra.
+Qed.
+
+(* the hypotheses of calculate_length_ieee_bound hold for ex_path with L = 9 *)
+Example ex_calculate_length_hyps :
+  D.lt D.zero (D.of_Z 9) = true /\
+  keeps_natural (natural_len ex_path D.zero) (D.of_Z 9) = false /\
+  (last_two_equal ex_path && D.gt (D.of_Z 9) (natural_len ex_path D.zero))%bool = false /\
+  (2 <= length ex_path)%nat /\
+  (match calculate_length ex_path (Some (D.of_Z 9)) D.zero with Done (p, l) => (length p, map D.bits l) | _ => (O, []) end
+   = (3%nat, map D.bits [D.of_Z 0; D.of_Z 5; D.of_Z 9])) /\
+  fin (D.of_Z 9).
+Proof.
+  split; [vm_compute; reflexivity|]. split; [vm_compute; reflexivity|]. split; [vm_compute; reflexivity|].
+  split; [cbn; lia|]. split; [vm_compute; reflexivity|]. exact (proj1 (D_ofZ 9 ltac:(lia))).
+Qed.
+
+(* the computed f32 length of the cut segment is 13 >= 2^-9: adjust_hyps again, from it *)
+Example ex_f32_length : pw (-9) <= B2R (plen (psub ex_p2 ex_p1)).
+Proof.
+  assert (H : B2SF (plen (psub ex_p2 ex_p1)) = SpecFloat.S754_finite false 13631488 (-20)) by (vm_compute; reflexivity).
+  destruct (plen (psub ex_p2 ex_p1)) as [s|s| |s m e Hm]; try discriminate. cbn in H. inversion H; subst.
+  unfold B2R, F2R. cbn. lra.
+Qed.
+
+Example ex_adjust_hyps_from_f32_length : adjust_hyps ex_p1 ex_p2 (D.of_Z 9) (D.of_Z 5).
+Proof.
+  destruct (D_ofZ 9 ltac:(lia)) as (F9 & R9). destruct (D_ofZ 5 ltac:(lia)) as (F5 & R5).
+  apply adjust_hyps_of_f32_length; try assumption.
+  - unfold ex_p1, coord_le. cbn [px py]. split; apply bnd32_ofZ; lia.
+  - unfold ex_p2, coord_le. cbn [px py]. split; apply bnd32_ofZ; lia.
+  - rewrite R9, R5. split; [lra|]. apply Rle_trans with (pw 3); [cbn; lra|apply bpow_le; lia].
+  - exact ex_f32_length.
 Qed.
